@@ -141,29 +141,47 @@ func c11Poll(c *eng.Ctx, poll *ssa.Function) {
 		c.Undecided("R-C11-1", poll, poll.Pos(), "poll loop", "no loop over a snapshot of the active set found")
 		return
 	}
-	// the fetch
-	var fetch *ssa.Call
+	// the fetch: the request itself, or the call of a helper of poll making it
+	var fetch *ssa.Call // in poll: the request or the helper call
+	var req *ssa.Call   // the request (in poll or in the helper)
 	eng.Instrs(poll, func(in ssa.Instruction) {
 		if call, ok := in.(*ssa.Call); ok && isStoreClientInvoke(&call.Call) {
-			fetch = call
+			fetch, req = call, call
 		}
 	})
+	if fetch == nil {
+		eng.Instrs(poll, func(in ssa.Instruction) {
+			call, ok := in.(*ssa.Call)
+			if !ok || !eng.IsHelper(poll, eng.Callee(&call.Call)) || !isFetchCall(p, call) || eng.UniqueCallSite(eng.Callee(&call.Call)) == nil {
+				return
+			}
+			eng.Instrs(eng.Callee(&call.Call), func(x ssa.Instruction) {
+				if ic, isC := x.(*ssa.Call); isC && isStoreClientInvoke(&ic.Call) {
+					fetch, req = call, ic
+				}
+			})
+		})
+	}
 	if fetch == nil {
 		c.Bad("R-C11-1", poll, poll.Pos(), "poll loop", "each known name is fetched with GetIfChanged", "no service request in poll")
 		return
 	}
+	viaHelper := fetch != req
 	// R-C11-3 pairing of the request
-	a := fetch.Call.Args
-	okPair := fetch.Call.Method.Name() == "GetIfChanged" && len(a) == 3 && eng.Origin(a[1]) == loop.Key
+	a := req.Call.Args
+	okPair := req.Call.Method.Name() == "GetIfChanged" && len(a) == 3 && eng.OriginX(a[1]) == loop.Key
 	verOK := false
-	if fr, base, isF := eng.LoadedField(a[2]); isF && fr.Name == "version" && eng.Origin(base) != nil {
+	if fr, base, isF := eng.LoadedField(eng.OriginX(a[2])); isF && fr.Name == "version" && eng.Origin(base) != nil {
 		if eng.Origin(base) == loop.Val || isCellOf(base, loop.Val) {
 			verOK = true
 		}
 	}
-	c.Check(okPair && verOK, "R-C11-3", poll, fetch.Pos(), eng.CallStr(&fetch.Call), "GetIfChanged(ctx, name, version) with name and version of the same snapshot entry", "")
+	c.Check(okPair && verOK, "R-C11-3", req.Parent(), req.Pos(), eng.CallStr(&req.Call), "GetIfChanged(ctx, name, version) with name and version of the same snapshot entry", "")
 	if ctxP := ctxParam(poll); ctxP != nil {
-		c.Check(eng.Origin(a[0]) == ssa.Value(ctxP), "R-C11-3", poll, fetch.Pos(), "context of the fetch", "poll's own context", "context "+eng.ValStr(a[0]))
+		c.Check(eng.OriginX(a[0]) == eng.OriginX(ctxP), "R-C11-3", req.Parent(), req.Pos(), "context of the fetch", "poll's own context", "context "+eng.ValStr(a[0]))
+	}
+	if viaHelper {
+		c11FetchHelper(c, req)
 	}
 	// updates[name] = got
 	eng.Instrs(poll, func(in ssa.Instruction) {
@@ -231,7 +249,18 @@ func c11Poll(c *eng.Ctx, poll *ssa.Function) {
 			got, idx := eng.TupleCall(mu.Value)
 			return got == fetch && idx == 0
 		}
-		hit, path := eng.Search(poll, fetch, eng.AndFilters(eng.AssumeErr(ferr, true), differ), recorded, func(x ssa.Instruction) bool {
+		filt := eng.AndFilters(eng.AssumeErr(ferr, true), differ)
+		if viaHelper {
+			// the helper answers a non-nil value exactly when the versions differ (c11FetchHelper)
+			var hv ssa.Value
+			for _, rf := range *fetch.Referrers() {
+				if ex, isEx := rf.(*ssa.Extract); isEx && ex.Index == 0 {
+					hv = ex
+				}
+			}
+			filt = eng.AndFilters(eng.AssumeErr(ferr, true), eng.AssumeErr(hv, false))
+		}
+		hit, path := eng.Search(poll, fetch, filt, recorded, func(x ssa.Instruction) bool {
 			return eng.IsReturn(x) || x.Block() == loop.Header
 		})
 		c.Check(hit == nil, "R-C11-8", poll, fetch.Pos(), "answer of "+eng.CallStr(&fetch.Call), "an answer whose version differs from the held one is recorded for installation on every path (also when the service's active version moved backwards)", func() string {
@@ -503,10 +532,11 @@ func c11Refresh(c *eng.Ctx, refresh, poll, apply *ssa.Function) {
 			return "return at " + p.Pos(hit.Pos()) + " drops it: " + p.PathStr(path)
 		}())
 	}
-	// poll: every fetch error is joined into the result
+	// poll: every fetch error is joined into the result (the fetch: the
+	// request, or the call of the helper making it)
 	var fetch *ssa.Call
 	eng.Instrs(poll, func(in ssa.Instruction) {
-		if call, ok := in.(*ssa.Call); ok && isStoreClientInvoke(&call.Call) {
+		if call, ok := in.(*ssa.Call); ok && isFetchCall(p, call) {
 			fetch = call
 		}
 	})
@@ -835,4 +865,84 @@ func c11Cadence(c *eng.Ctx) {
 	if n == 0 {
 		c.Ok("R-C11-7", run, run.Pos(), "Ticker.Reset calls in the client library", "none")
 	}
+}
+
+
+// c11FetchHelper: the conditional request lives in a helper of poll that
+// answers (value, error).  Decided inside it: every request error other than
+// not-changed is returned as an error (R-C11-2), and an answer whose version
+// differs from the held one is returned as the (non-nil) value (R-C11-8); poll
+// then only has to record non-nil values and join the errors.
+func c11FetchHelper(c *eng.Ctx, req *ssa.Call) {
+	p := c.P
+	h := req.Parent()
+	ferr := saveErr(req)
+	var got ssa.Value
+	for _, rf := range *req.Referrers() {
+		if ex, ok := rf.(*ssa.Extract); ok && ex.Index == 0 {
+			got = ex
+		}
+	}
+	ei := errResultIndex(h)
+	if ei < 0 || got == nil {
+		c.Undecided("R-C11-2", h, h.Pos(), "fetch helper "+eng.FName(h), "does not answer (value, error)")
+		return
+	}
+	notChanged := func(b *ssa.BasicBlock, i int) bool {
+		ifi, ok := b.Instrs[len(b.Instrs)-1].(*ssa.If)
+		if !ok {
+			return true
+		}
+		cond := eng.CondOf(ifi.Cond, i == 0)
+		if call, _, truth, isCall := cond.BoolCall(); isCall && eng.CalleeIs(&call.Call, "errors", "Is") && eng.Same(call.Call.Args[0], ferr) {
+			if eng.IsGlobalLoad(call.Call.Args[1], "types/api", "ErrValueNotChanged") {
+				return !truth
+			}
+		}
+		return true
+	}
+	hit, path := eng.Search(h, req, eng.AndFilters(eng.AssumeErr(ferr, false), notChanged), nil, func(x ssa.Instruction) bool {
+		r, isR := x.(*ssa.Return)
+		return isR && nonNilAt(eng.RetVals(r)[ei], eng.FactsAt(r)) != eng.Yes && !eng.Same(eng.RetVals(r)[ei], ferr)
+	})
+	c.Check(hit == nil, "R-C11-2", h, req.Pos(), "error of "+eng.CallStr(&req.Call), "every request error other than ErrValueNotChanged is returned to poll as an error (never dropped)", func() string {
+		if hit == nil {
+			return ""
+		}
+		return "a return may report success: " + p.PathStr(path)
+	}())
+	have := req.Call.Args[len(req.Call.Args)-1]
+	differ := func(b *ssa.BasicBlock, i int) bool {
+		ifi, ok := b.Instrs[len(b.Instrs)-1].(*ssa.If)
+		if !ok {
+			return true
+		}
+		cd := eng.CondOf(ifi.Cond, i == 0)
+		if call, _, truth, isCall := cd.BoolCall(); isCall && eng.CalleeIs(&call.Call, "errors", "Is") && eng.Same(call.Call.Args[0], ferr) {
+			return !truth
+		}
+		op, x, y, isCmp := cd.Cmp()
+		if !isCmp {
+			return true
+		}
+		isGot := func(v ssa.Value) bool {
+			fr, base, isF := eng.LoadedField(v)
+			return isF && fr.Name == "Version" && eng.Origin(base) == got
+		}
+		isHave := func(v ssa.Value) bool { return eng.Origin(v) == eng.Origin(have) }
+		if (isGot(x) && isHave(y)) || (isGot(y) && isHave(x)) {
+			return op != token.EQL
+		}
+		return true
+	}
+	hit2, path2 := eng.Search(h, req, eng.AndFilters(eng.AssumeErr(ferr, true), differ), nil, func(x ssa.Instruction) bool {
+		r, isR := x.(*ssa.Return)
+		return isR && eng.Origin(eng.RetVals(r)[0]) != got
+	})
+	c.Check(hit2 == nil, "R-C11-8", h, req.Pos(), "answer of "+eng.CallStr(&req.Call), "an answer whose version differs from the held one is handed to poll as the value (also when the service's active version moved backwards)", func() string {
+		if hit2 == nil {
+			return ""
+		}
+		return "with err == nil and differing versions another value is returned: " + p.PathStr(path2)
+	}())
 }
